@@ -144,7 +144,9 @@ func checkAnyURL(c anyURLCase) error {
 	for _, d := range docs {
 		m4 := newAny(c.Dynamic)
 		err := prototext.Unmarshal([]byte(d.doc), m4)
-		if !valid && err == nil {
+		// (bracketed form: white space and #-comments between the brackets are not part of the URL,
+		// so the demand there is on what is stored, below)
+		if !valid && err == nil && d.exact {
 			return fmt.Errorf("prototext.Unmarshal accepted invalid UTF-8 in Any.type_url (%s): %q stored %q", d.name, d.doc, anyURLOf(m4))
 		}
 		if valid && d.exact && err != nil {
